@@ -43,11 +43,16 @@ class C06(Prop):
                 cols = [[c[0]] * n for c in cols]
             elif r < 0.2:
                 st = "recal"
-            c = {"stream": st, **cfg, "y": ys, "cols": cols, "w": dc.gen_weights(rng, n)}
-            if rng.random() < 0.1:
+            c = {"stream": st, **cfg, "y": ys, "cols": cols, "w": dc.gen_weights(rng, n), "colnames": dc.gen_colnames(rng, ncols)}
+            r2 = rng.random()
+            if r2 < 0.1:
                 c["functional"] = dc.functional_of(cfg)
                 if c["functional"] in ("expectile", "quantile"):
                     c["level_given"] = cfg["level"]
+            elif r2 < 0.2 and dc.functional_of(cfg) in ("median", "quantile") and cfg["level"] == 0.5:
+                # the level is documented to be neglected for the median: pass one anyway
+                c["functional"] = "median"
+                c["level_given"] = rng.choice([0.9, 0.1, 0.25, 0.5])
             yield c
 
     def impl(self, case):
